@@ -73,6 +73,7 @@ def pack_standard(evs):
     ev_base = {}
     st_base = {}      # proc -> sampling time restored at the start of that process
     last_ckpt_digest = None
+    last_ckpt_mid = False
     last_done = None
     for e in evs:
         ev = e["ev"]
@@ -176,8 +177,10 @@ def pack_standard(evs):
                         it_sum=int(lv["it_sum"]) if lv else 0)
             if ev == "ckpt":
                 last_ckpt_digest = e["digest"]
+                last_ckpt_mid = bool(e.get("mid", False))
                 base["digest_ok"] = True
                 base["digest_diff"] = ""
+                base["mid"] = last_ckpt_mid
             else:
                 d = e["digest"]
                 if last_ckpt_digest is None:
@@ -188,6 +191,7 @@ def pack_standard(evs):
                                   if d.get(k) != last_ckpt_digest.get(k))
                     base["digest_ok"] = not diff
                     base["digest_diff"] = ",".join(diff)
+                base["from_mid_ckpt"] = bool(last_ckpt_mid)
         elif ev in ("done", "done_again"):
             facts = ["ascending", "count_ok", "logZ_ok", "logZ_err_ok", "weights_ok", "vols_ok",
                      "logL_model_ok", "logP_model_ok", "in_bounds_ok", "birth_ok", "dict_ok",
